@@ -914,7 +914,7 @@ def programs(tier):
                     it["id"] = "vmv-" + it["id"]
                     add(it)
     # ---- dedicated: input vectors may be zero vectors, scalars may be zero
-    zprogs = [[], ["copy"], ["neg"], ["T"], ["conj"], ["real"], ["mul_s"], ["add_B"], ["iadd_B"], ["mm_M"],
+    zprogs = [[], ["copy"], ["neg"], ["T"], ["conj"], ["real"], ["mul_s"], ["rmul_s"], ["add_dyad_fac"], ["add_B"], ["iadd_B"], ["mm_M"],
               ["gi_ss"], ["diag_0"], ["dot_x"], ["ct_M"], ["set_row", "copy"]]
     for prog in zprogs:
         for (n, m) in [(2, 2), (1, 3)] if tier == "quick" else [(2, 2), (1, 3), (3, 1), (2, 3)]:
